@@ -32,6 +32,43 @@ def search(r):
     return found
 
 
+def ev(f, x):
+    t = f.replace("(", " ").replace(")", " ").split()
+    k, a = t[0], [int(v) for v in t[1:]]
+    return {"FConst": lambda: a[0], "FLin": lambda: a[0] * x + a[1], "FBit": lambda: a[1] if x & a[0] else a[2],
+            "FMaskEq": lambda: a[2] if (x & a[0]) == a[1] else a[3], "FEq": lambda: a[1] if x == a[0] else a[2],
+            "FLoHi": lambda: (x & 255) + (x >> 8) + a[0],
+            "FPop4": lambda: a[0] - bool(x & 1) - bool(x & 2) - bool(x & 4) - bool(x & 8), "FNone": lambda: None}[k]()
+
+
+def differential_search(r):
+    """Failing-input search when the translation tie is broken: the running xstack_effect against the
+    interpreters' reference formulas, on concrete (version, opcode, operand) triples."""
+    from translate import stackeffect as SE
+    ref = SE.reference_formulas(False)
+    args = list(range(0, 40)) + [255, 256, 257, 1000, 65535, 65536, 70001]
+    found = False
+    for v, rows in ref.items():
+        tname = "opcode_" + v.replace(".", "")
+        cases, meta = [], []
+        for name, op, f in rows:
+            for a in args:
+                want = ev(f, a)
+                if want is None:
+                    continue
+                cases.append({"table": tname, "op": op, "arg": a})
+                meta.append((name, op, a, want))
+        res = C.run_impl_op("stack_effect", cases, modules=MODS, shards=4)
+        for (name, op, a, want), o in zip(meta, res):
+            got = o[2] if (isinstance(o, list) and len(o) == 3 and o[0] == 0 and o[1] == 1) else None
+            if got != want:
+                r.violation({"version": v, "opname": name, "opcode": op, "oparg": a, "xstack_effect": o, "cpython_stack_effect": want,
+                             "replay": f"python{v} -c 'import dis; print(dis.stack_effect({op}, {a}))'"}, name=f"C15-diff-{v}-{name}.json")
+                found = True
+                break
+    return found
+
+
 def correspondence(r):
     rnd = random.Random(r.seed * 53 + 15)
     tables = IG.load_tables()
@@ -70,7 +107,7 @@ def run(r):
         broken.append(("stackeffect", str(e)))
     ok = False if broken else r.build(extra_targets=["Model/StackEffect.vo"])
     if broken or not ok:
-        found = False if broken else search(r)
+        found = differential_search(r) if broken else search(r)
         if not found:
             r.violation({"broken": broken or "proof obligation", "theorem_or_tie": "Props/C15.v" if not broken else "translator failed closed on xstack_effect",
                          "log": "" if broken else r.build_failure_excerpt()}, found_input=False, name="C15-obligation.json")
